@@ -169,7 +169,7 @@ func valid(g *mgeom.Geom, depth int) error {
 	if mgeom.Level(g.T) < 0 && g.T != mgeom.GC {
 		return fmt.Errorf("bad type %q", g.T)
 	}
-	if g.T != mgeom.GC && (g.L < 1 || g.L > 4) {
+	if g.T != mgeom.GC && (g.L < 0 || g.L > 4 || (g.L == 0 && g.NumCoords() > 0)) {
 		return fmt.Errorf("bad layout %d", g.L)
 	}
 	if g.T == mgeom.GC && (g.L < 0 || g.L > 4) {
@@ -217,6 +217,11 @@ func (prop) Generate(r *prng.Rand, phase string) any {
 		t := types[r.Intn(len(types))]
 		if r.Chance(0.5) {
 			t = cfg.Types[r.Intn(len(cfg.Types))]
+		}
+		if t != mgeom.GC && r.Chance(0.01) {
+			// a geometry created without a layout (it can only be empty)
+			s.Msgs = append(s.Msgs, (&mgeom.Geom{T: t, L: 0}).Norm())
+			continue
 		}
 		s.Msgs = append(s.Msgs, cfg.Gen(r, t, 1+r.Intn(4), 0))
 	}
